@@ -55,6 +55,9 @@ func (l *Lexer) nextInsideToken() token.Token {
 	var tok token.Token
 
 	l.skipWhitespace()
+	// every token is stamped with the line on which it starts (reading ahead
+	// over a following newline must not move it to the next line)
+	startLine := l.curLine
 
 	switch l.ch {
 	case '=':
@@ -194,7 +197,7 @@ func (l *Lexer) nextInsideToken() token.Token {
 		if isLetter(l.ch) {
 			tok.Literal = l.readIdentifier()
 			tok.Type = token.LookupIdent(tok.Literal)
-			tok.LineNumber = l.curLine
+			tok.LineNumber = startLine
 			return tok
 		} else if isDigit(l.ch) {
 			tok.Literal = l.readNumber()
@@ -207,7 +210,7 @@ func (l *Lexer) nextInsideToken() token.Token {
 			default:
 				tok.Type = "INT"
 			}
-			tok.LineNumber = l.curLine
+			tok.LineNumber = startLine
 			return tok
 		} else {
 			tok = l.newToken(token.ILLEGAL)
@@ -215,7 +218,7 @@ func (l *Lexer) nextInsideToken() token.Token {
 	}
 
 	l.readChar()
-	tok.LineNumber = l.curLine
+	tok.LineNumber = startLine
 	return tok
 }
 
